@@ -220,7 +220,7 @@ def run(ctx, builddir):
                "absolute 1e-9: the power-trace formula produces this zero by cancelling addends of that size (measured residue 1e-10 at total 11, 4e-9 at 13, 3e-8 at 15 next to "
                "even-total values of 1e5..1e9); every other entry, and every empty-sum entry up to total %d, keeps the default tolerance" % (EMPTY_SUM_TOTAL, EMPTY_SUM_TOTAL))
     ctx.assume("sanitizer drivers: -O1 -g -fsanitize=address,undefined -fno-sanitize-recover=undefined, ASAN_OPTIONS=detect_leaks=0 (leaks are outside the property's wording); the sweeps run a recover-mode build of the same drivers (one report per faulting source location per process) and every vector with a report or a wrong value is re-executed alone under the strict build before it is reported")
-    if any(it[0] in ("haf", "variants") for it in items):
+    if any(it[0] in ("haf", "hafb", "variants") for it in items):
         # one process fills numba's on-disk cache for every (function, array layout) signature the
         # sweep uses, so that 16 workers do not compile the same parallel kernels concurrently
         core.pmap(ctx, "mc.checks.c04", "work", [("warm",)], builddir, procs=1, env={"OMP_THREAD_LIMIT": "1"})
@@ -777,7 +777,17 @@ def _eval_haf(case):
         msg = _haf_compare(unbatched(), [2 * s + 1 for s in scales], got)
         return (None if msg is None else "vs the library's un-batched function: " + msg), "batch_vs_unbatched"
 
-    msg, sub = compare(call(entry, layout))
+    try:
+        msg, sub = compare(call(entry, layout))
+    except (TypeError, NotImplementedError):
+        raise  # a refusal of the argument types / an unsupported cell: the caller's business
+    except Exception as e:  # noqa: BLE001 -- a valid reduction must not make the kernel raise
+        if not batch:
+            raise
+        sig = {"check": "C04", "sub": "exception", "kernel": kernel, "exception": type(e).__name__,
+               "input_class": "last_occupation_nonzero" if occ[-1] != 0 else ("generic" if case.get("family", "?") == "generic" else "structured")}
+        return sig, "%s(%s, diag=%s, occ=%s, cutoff=%s) [%s, %s] raised %s: %s" % (
+            kernel, case.get("matrix_name"), case.get("diag_name"), occ, cutoff, entry, layout, type(e).__name__, str(e)[:300])
     if msg is None:
         return None
     if batch and sub == "value":
@@ -1305,10 +1315,10 @@ def _work_hafb(ctx, item):
         variants.append((dname, dv, fr, D))
     targets = [dict() for _ in variants]
     n_calls = n_entries = n_unb = n_nonzero = n_empty = 0
-    worst = 0.0
+    worst = worst_unb = 0.0
 
     def target(vi, o):
-        nonlocal n_calls, n_unb, n_empty
+        nonlocal n_calls, n_unb, n_empty, worst_unb
         hit = targets[vi].get(o)
         if hit is not None:
             return hit
@@ -1330,6 +1340,9 @@ def _work_hafb(ctx, item):
             n_empty += 1
         n_calls += 1
         n_unb += 1
+        eu = _err(u, r)
+        if eu <= 1e-9 + 1e-9 * s:
+            worst_unb = max(worst_unb, eu / (1e-9 + 1e-9 * s))
         if _haf_compare([r], [s], [u]) is not None:
             rep.report({"kind": "haf", "kernel": kernel, "entry": "numba", "layout": "C", "matrix_name": name, "family": fam, "matrix": _mjson(mat),
                         "diag_name": dname, "diag": None if dv is None else _vjson(dv), "occ": list(o), "cutoff": None, "tol_rule": "hafb"}, presig=(kernel, fam))
@@ -1348,16 +1361,18 @@ def _work_hafb(ctx, item):
                 ctx.note_distinct("hafb|%d|%s|%s|%d" % (m, name, occ, cutoff))
                 for vi, (dname, dv, fr, D) in enumerate(variants):
                     o = np.array(occ, dtype=np.int64)  # fresh: a kernel that writes into its argument must not poison the next call
-                    if fr is None:
-                        kernel = "hafnian_batch"
-                        out = H.hafnian_with_reduction_batch(A, o, cutoff)
-                    else:
-                        kernel = "loop_hafnian_batch"
-                        out = H.loop_hafnian_with_reduction_batch(A, D, o, cutoff)
-                    got = [complex(x) for x in np.asarray(out).reshape(-1)]
+                    kernel = "hafnian_batch" if fr is None else "loop_hafnian_batch"
+                    try:
+                        if fr is None:
+                            out = H.hafnian_with_reduction_batch(A, o, cutoff)
+                        else:
+                            out = H.loop_hafnian_with_reduction_batch(A, D, o, cutoff)
+                        got = [complex(x) for x in np.asarray(out).reshape(-1)]
+                    except Exception:  # noqa: BLE001 -- confirmed (and classified) by _eval_haf through rep.report
+                        got = None
                     n_calls += 1
                     n_nonzero += occ[-1] != 0
-                    bad = len(got) != cutoff
+                    bad = got is None or len(got) != cutoff
                     if not bad:
                         for g, x in zip(got, occs):
                             r, s, u = target(vi, x)
@@ -1386,6 +1401,7 @@ def _work_hafb(ctx, item):
     ctx.count("batch_target_reductions_with_empty_defining_sum_and_total>%d_(one-vertex-unmatched_scale)" % EMPTY_SUM_TOTAL, n_empty)
     # largest |batch entry - exact| of an accepted entry in thousandths of its tolerance 1e-9 + 1e-9*scale
     ctx.counters["max_batch_entry_error_millitol"] = max(ctx.counters.get("max_batch_entry_error_millitol", 0), int(worst * 1000))
+    ctx.counters["max_unbatched_at_batch_targets_error_millitol"] = max(ctx.counters.get("max_unbatched_at_batch_targets_error_millitol", 0), int(worst_unb * 1000))
 
 
 def _work_jaxhaf(ctx, item):
